@@ -304,6 +304,14 @@ func oneCluster(rep *core.Report, sel Select, c Case, l sim.Layout, k int) {
 		core.Infra("faults: primary image: %v", perr)
 	}
 	ppos := w.p.Store.DB(dbName).Pos()
+	switch {
+	case len(w.r.Exits()) > 0:
+		countOutcome(c.Op, "node-stopped-itself")
+	case converged:
+		countOutcome(c.Op, "reconnected-and-converged")
+	default:
+		countOutcome(c.Op, "did-not-converge")
+	}
 	if len(w.r.Exits()) > 0 {
 		// the replica stopped itself: a restart on the directory as it was then must open and be consistent
 		cp := filepath.Join(w.dir, "r-restart")
